@@ -89,6 +89,7 @@ fn main() {
                 }
             }
         }
+        "c14-child" => c14::child(pos.first().and_then(|s| s.parse().ok()).unwrap_or(0), tier, seed),
         _ => usage(),
     };
     std::process::exit(code);
